@@ -38,6 +38,31 @@ Theorem C02_failing_coercer_stops_chain :
 Proof. exact (failing_coercer_stops_chain current). Qed.
 Print Assumptions C02_failing_coercer_stops_chain.
 
+(* ... and so does a failing rename handler (the chain is the same loop, the error it files and looks for is RENAMING_FAILED) *)
+Theorem C02_failing_rename_handler_stops_chain :
+  forall x ns name rest field v e,
+    pool_coerce name v = Some (URaise e) ->
+    forall r, coerce_chain current x ns (VStr name :: rest) field v false "RENAMING_FAILED" = Ok r ->
+    snd r = v /\ exists ns1, nfile current x ns field "RENAMING_FAILED" [exc_message e] = Ok ns1 /\ fst r = ns1.
+Proof. intros x ns name rest field v e. exact (failing_processor_stops_chain current x ns name rest field v e "RENAMING_FAILED"). Qed.
+Print Assumptions C02_failing_rename_handler_stops_chain.
+
+(* renaming a field to its own name changes nothing (ad56e43: the assignment-then-delete dropped the field) *)
+Theorem C02_rename_to_itself_keeps_the_field :
+  forall x ns rsch field d,
+    assoc_get field rsch = Some (Some (VDict d)) ->
+    assoc_get (KStr "rename") d = Some (key_to_value field) ->
+    assoc_mem (KStr "rename_handler") d = false ->
+    rename_step current x ns rsch field = Ok ns.
+Proof.
+  intros x ns rsch field d Hg Hr Hh.
+  assert (Hrefl : py_eq (key_to_value field) (key_to_value field) = true).
+  { destruct field; cbn [key_to_value py_eq num_of]; [apply String.eqb_refl|apply Z.eqb_refl]. }
+  unfold rename_step. rewrite Hg. cbn [rs_has bind]. unfold assoc_mem at 1. rewrite Hr. cbn [bind rs_get_default].
+  rewrite Hr, Hrefl. cbn [bind]. unfold rename_handler_step. cbn [rs_has bind]. rewrite Hh. reflexivity.
+Qed.
+Print Assumptions C02_rename_to_itself_keeps_the_field.
+
 Theorem C02_unknown_rules_only_on_unknown_fields :
   forall x ns rsch f rs,
     assoc_get f rsch = Some rs -> rs_has "_normalize_coerce" rs "coerce" = Ok false ->
